@@ -40,7 +40,7 @@ func init() { streams["twowriters"] = &stream{gen: genTwoWriters, exec: execTwoW
 func genTwoWriters(c *ctx, emit func(string)) {
 	n := 0
 	for n < c.n {
-		for _, op := range []string{"da", "t", "d1", "dbig"} {
+		for _, op := range []string{"da", "t", "d1", "dbig", "tmid"} {
 			for _, first := range []string{"w1", "w2"} {
 				for _, seg := range []int{512, 1024} {
 					if n < c.n {
@@ -216,16 +216,25 @@ func execTwoWriters1(c *ctx, line string) (obs string) {
 	payload := func(i uint64) []byte { return bytes.Repeat([]byte{byte('a' + i)}, seg+100) } // one entry fills a segment
 	ref := map[uint64][]byte{}
 	rfirst, rlast := uint64(0), uint64(0)
-	refStore := func(i uint64, d []byte) {
+	// the contiguous-log reference: an append must continue the log (any index on an empty log), a
+	// deletion must be a prefix or a suffix; both return false (= the call must fail) otherwise
+	refStore := func(i uint64, d []byte) bool {
+		if len(ref) > 0 && i != rlast+1 {
+			return false
+		}
 		if len(ref) == 0 {
 			rfirst = i
 		}
 		ref[i] = d
 		rlast = i
+		return true
 	}
-	refDelete := func(mn, mx uint64) {
+	refDelete := func(mn, mx uint64) bool {
 		if len(ref) == 0 || mx < rfirst || mn > rlast {
-			return
+			return true
+		}
+		if mn > rfirst && mx < rlast {
+			return false // strict middle
 		}
 		for i := mn; i <= mx && i <= rlast; i++ {
 			delete(ref, i)
@@ -238,12 +247,26 @@ func execTwoWriters1(c *ctx, line string) (obs string) {
 		if len(ref) == 0 {
 			rfirst, rlast = 0, 0
 		}
+		return true
 	}
 	setHold(R, true)
-	if err := w.StoreLogs([]*raft.Log{{Index: 1, Term: 1, Data: payload(1)}}); err != nil {
-		return "badinput"
+	w1idx := uint64(2) // the index of W1's concurrent append
+	if w2op == "tmid" {
+		// two entries in the batch that fills the tail: DeleteRange(2,2) is a suffix of [1,2] and a
+		// strict middle of [1,2,3]
+		half := func(i uint64) []byte { return bytes.Repeat([]byte{byte('a' + i)}, seg/2+60) }
+		if err := w.StoreLogs([]*raft.Log{{Index: 1, Term: 1, Data: half(1)}, {Index: 2, Term: 1, Data: half(2)}}); err != nil {
+			return "badinput"
+		}
+		refStore(1, half(1))
+		refStore(2, half(2))
+		w1idx = 3
+	} else {
+		if err := w.StoreLogs([]*raft.Log{{Index: 1, Term: 1, Data: payload(1)}}); err != nil {
+			return "badinput"
+		}
+		refStore(1, payload(1))
 	}
-	refStore(1, payload(1))
 	if !waitFor(R, 3*time.Second) {
 		return "badinput-no-rotation"
 	}
@@ -251,7 +274,7 @@ func execTwoWriters1(c *ctx, line string) (obs string) {
 	switch w2op {
 	case "da":
 		mn, mx = 1, 2
-	case "t":
+	case "t", "tmid":
 		mn, mx = 2, 2
 	case "d1":
 		mn, mx = 1, 1
@@ -261,11 +284,24 @@ func execTwoWriters1(c *ctx, line string) (obs string) {
 	setHold(W1w, true)
 	setHold(W2w, true)
 	var e1, e2 error
+	ok1, ok2 := true, true
 	d2 := spawn("W2", func() { e2 = w.DeleteRange(mn, mx) })
-	if !waitFor(W2w, 10*time.Second) {
+	w2early := false
+	select {
+	case got := <-arrived:
+		if got != W2w {
+			return "badinput-w2"
+		}
+	case <-d2:
+		// DeleteRange returned without waiting for the queued rotation: it took effect before W1's append
+		w2early = true
+	case <-time.After(10 * time.Second):
 		return "badinput-w2"
 	}
-	d1 := spawn("W1", func() { e1 = w.StoreLogs([]*raft.Log{{Index: 2, Term: 1, Data: payload(2)}}) })
+	if w2early {
+		first = "w2"
+	}
+	d1 := spawn("W1", func() { e1 = w.StoreLogs([]*raft.Log{{Index: w1idx, Term: 1, Data: payload(w1idx)}}) })
 	if !waitFor(W1w, 10*time.Second) {
 		return "badinput-w1"
 	}
@@ -303,9 +339,7 @@ func execTwoWriters1(c *ctx, line string) (obs string) {
 		if !waitDone(d1, "StoreLogs(2)") {
 			return "hang"
 		}
-		if e1 == nil {
-			refStore(2, payload(2))
-		}
+		ok1 = refStore(w1idx, payload(w1idx))
 		// rotation 2 is queued (the append filled the new tail): the rotation goroutine is held again
 		waitFor(R, 5*time.Second)
 		release(W2w)
@@ -322,31 +356,27 @@ func execTwoWriters1(c *ctx, line string) (obs string) {
 		if !waitDone(d2, "DeleteRange") {
 			return "hang"
 		}
-		if e2 == nil {
-			refDelete(mn, mx)
-		}
+		ok2 = refDelete(mn, mx)
 	} else {
 		setHold(W2w, false)
-		release(W2w)
+		if !w2early {
+			release(W2w)
+		}
 		if !waitDone(d2, "DeleteRange") {
 			return "hang"
 		}
-		if e2 == nil {
-			refDelete(mn, mx)
-		}
+		ok2 = refDelete(mn, mx)
 		setHold(R, false)
 		setHold(W1w, false)
 		release(W1w)
 		if !waitDone(d1, "StoreLogs(2)") {
 			return "hang"
 		}
-		if e1 == nil {
-			refStore(2, payload(2))
-		}
+		ok1 = refStore(w1idx, payload(w1idx))
 		release(R)
 	}
-	if e1 != nil || e2 != nil {
-		c.witness("C14", "two-writers-call-fails", fmt.Sprintf("StoreLogs(2): %v, DeleteRange(%d,%d): %v", e1, mn, mx, e2), line)
+	if (e1 == nil) != ok1 || (e2 == nil) != ok2 {
+		c.witness("C14", "two-writers-wrong-result", fmt.Sprintf("applied in lock order (%s first) StoreLogs(%d) must %s and DeleteRange(%d,%d) must %s; got %v and %v", first, w1idx, okWord(ok1), mn, mx, okWord(ok2), e1, e2), line)
 		return "fail"
 	}
 	w.DeleteRange(math.MaxUint64, math.MaxUint64) // rotation barrier
@@ -357,7 +387,7 @@ func execTwoWriters1(c *ctx, line string) (obs string) {
 			c.witness("C14", "two-writers-wrong-log", fmt.Sprintf("%s: FirstIndex/LastIndex = %d/%d (%v, %v); the two calls applied in lock order give %d/%d", when, fi, la, ea, eb, rfirst, rlast), line)
 			return false
 		}
-		for i := uint64(1); i <= 4; i++ {
+		for i := uint64(1); i <= 6; i++ {
 			var lg raft.Log
 			err := w.GetLog(i, &lg)
 			want, ok := ref[i]
@@ -377,7 +407,7 @@ func execTwoWriters1(c *ctx, line string) (obs string) {
 	}
 	next := rlast + 1
 	if len(ref) == 0 {
-		next = 3
+		next = 5
 	}
 	if err := w.StoreLogs([]*raft.Log{{Index: next, Term: 1, Data: []byte("after")}}); err != nil {
 		c.witness("C14", "two-writers-append-refused", fmt.Sprintf("StoreLogs(%d) at LastIndex+1 after both calls returned nil: %v", next, err), line)
@@ -405,4 +435,11 @@ func parseU10(s string) uint64 {
 	var v uint64
 	fmt.Sscanf(s, "%d", &v)
 	return v
+}
+
+func okWord(ok bool) string {
+	if ok {
+		return "succeed"
+	}
+	return "fail"
 }
